@@ -79,10 +79,21 @@ Proof.
   eexists; split; vm_compute; reflexivity.
 Qed.
 
-(* the executable predicate of the run (documented rejection, or: consistent strict result of the same size, URI side of every
+(* the executable predicate of the run (exactly the rejection that the naive specification spec_remap_error predicts, or: consistent strict result of the same size, URI side of every
    record kept, nothing lost, nothing invented, applicable pairs applied, clashing pairs skipped) accepts the model's own
    observation on every valid case *)
 Theorem C11_P_model : forall k : rcase, valid_r k = true ->
   (match rc_op k with DRemapCurie _ => True | _ => False end) -> P_C11 k (model_robs k) = true.
 Proof. exact P_C11_model. Qed.
 Print Assumptions C11_P_model.
+
+(* which of the documented errors is raised, and when: the validation's outcome is the one a naive specification on the records
+   predicts -- 11 DuplicateKeys (two keys name one record), else 12 DuplicateValues (two values name one record), else 13
+   InconsistentMapping (one record named by two strings among the keys and the values that do not belong to their own key's record),
+   else 14 CycleDetected (following key -> value returns to a key), else the remapping is applied *)
+Theorem C11_error_exact : forall rs0 c m, mk_conv true [58%N] rs0 = Val c -> NoDup (map fst m) ->
+  match spec_remap_error rs0 m with
+  | Some e => exists err, order_curie_remapping c m = Raise err /\ derive_code (@Raise conv err) = e
+  | None => exists ordering, order_curie_remapping c m = Val ordering end.
+Proof. exact order_code. Qed.
+Print Assumptions C11_error_exact.
